@@ -783,6 +783,13 @@ class Executor(ExprMixin, StmtMixin, Engine):
         if c.inline:
             yield from self.inline_call(st, c, pos, kw, node)
             return
+        if len(pos) > len(c.params) or any(k not in [p[0] for p in c.params] for k in kw):
+            # the call passes arguments the contract does not know (the signature was extended): the contract
+            # says nothing about such a call, so the working tree's body is executed in place instead
+            stale = self.stale_contract_inline(c)
+            if stale is not None:
+                yield from self.inline_call(st, stale, pos, kw, node)
+                return
         args = self.bind_args(c, pos, kw, node, st)
         cname = c.key.split(':')[1]
         if getattr(self, 'in_anyall', 0):
@@ -1057,6 +1064,20 @@ class Executor(ExprMixin, StmtMixin, Engine):
         if key is not None:
             self.m.methods[(owner, fdef.name)] = key
         return key
+
+    def stale_contract_inline(self, c):
+        if c.trusted or '#' in c.key or ':' not in c.key or c.key.startswith(('re:', 'protocol:')):
+            return None
+        ikey = c.key + '#inlined'
+        if ikey in self.m.contracts:
+            return self.m.contracts[ikey]
+        try:
+            fdef, _seg = self.find_def(c.key)
+        except KeyError:
+            return None
+        if self.synth_inline_contract(ikey, fdef) is None:
+            return None
+        return self.m.contracts[ikey]
 
     def synth_inline_contract(self, key, fdef):
         decos = [d.id if isinstance(d, ast.Name) else getattr(d, 'attr', None) for d in fdef.decorator_list]
@@ -1382,6 +1403,19 @@ class Executor(ExprMixin, StmtMixin, Engine):
         self.blank_axiom = bool(getattr(c, 'options', {}).get('blank_axiom'))
         self.timeout_ms = getattr(c, 'options', {}).get('timeout_ms')
         st = self.initial_state(c)
+        # parameters the contract does not know: bound to their literal defaults (the contract describes the
+        # calls that omit them)
+        known = {p[0] for p in c.params}
+        fa = fdef.args
+        fdefaults = [None] * (len(fa.args) - len(fa.defaults)) + list(fa.defaults)
+        for arg, d in list(zip(fa.args, fdefaults)) + list(zip(fa.kwonlyargs, fa.kw_defaults)):
+            if arg.arg in known:
+                continue
+            if isinstance(d, ast.Constant) and (d.value is None or isinstance(d.value, (bool, int, str))):
+                v = d.value
+                st.env[arg.arg] = NONE_VAL if v is None else mk_bool(v) if isinstance(v, bool) else \
+                    mk_int(v) if isinstance(v, int) else mk_str(v)
+            # (any other new parameter stays unbound: reading it leaves the subset)
         # class-typed first parameter of classmethods
         for (pn, pt, *rest) in c.params:
             if isinstance(pt, TObj) and pt.kind == 'class':
